@@ -82,6 +82,9 @@ def check_def(args):
     V = perm_cols(R.V, order)
     a = perm_rows(R.a, order)
     pts = points.points(ns, npar, seed)
+    # ... and the first point once more with the parameter values of the second (same state and time: anything remembered
+    # per point across a parameter change would show)
+    pts = pts + [(pts[0][0], pts[0][1], pts[1][2])]
     f = out["features"]
     f["events:%d" % ne] = 1
     f["states:%d" % ns] = 1
